@@ -1,7 +1,7 @@
 SPECIFICATION Spec
 CONSTANTS
   MaxLen = 4
-  MaxWrapLen = 5
+  MaxWrapLen = 4
   MaxDifferLen = 2
   MaxW = 5
   Kinds = {"shorten", "wrap", "differ"}
